@@ -21,7 +21,7 @@ RULE = ("Model level: Hypothesis draws T=1..3 distinct blob templates, a rotatio
         "and permuting the template or rotation list permutes the label only. Loader level: particles planted from "
         "different templates are aligned through align (4-D stack), align_multi_templates and "
         "LoaderGroup.align_multi_templates (list and Mapping input); the label feature must name the template and the "
-        "rotation features the searched rotation. Grid level (enumerated): normalize_rotations of (max, step) ranges "
+        "rotation features the searched rotation (incl. a 3 x 125 = 375-candidate search whose flat indices exceed 8 bits). Grid level (enumerated): normalize_rotations of (max, step) ranges "
         "against the documented grid (size, identity, z-major order, external single-axis rotations). "
         "Non-trivial = T > 1 and K > 1 with k != identity.")
 TOLERANCES = {"rotation": "1e-6 rad (must be exactly a candidate)", "shift": "0.15 px", "score optimality": "2e-3 relative",
@@ -323,6 +323,18 @@ def loader_cases(draw):
 
 
 @st.composite
+def many_candidate_cases(draw):
+    """T = 3 templates x 125 rotations = 375 candidates (> 256: flat indices do not fit 8 bits)."""
+    d = draw(c01_pose.cases(("multi",), force_T=3, force_rots={"kind": "iso", "max": 50.0, "step": 25.0}, nmax=2))
+    d["route"] = draw(st.sampled_from(["multi", "group-list"]))
+    d["label_name"] = "labels"
+    for p in d["particles"]:  # two thirds of the planted rotations sit at flat indices k*3+j >= 256
+        if draw(st.integers(0, 2)):
+            p["k"] = 86 + p["k"] % 39
+    return d
+
+
+@st.composite
 def grid_cases(draw):
     form = draw(st.sampled_from(["three", "three", "single"]))
     ranges = []
@@ -367,6 +379,8 @@ def engines():
         Engine("loader", judge_loader, strategy=loader_cases(), nontrivial=c01_pose.nontrivial, labels=labels_loader,
                cases={"quick": 40, "thorough": 800}, shards={"quick": 4, "thorough": 16},
                shrink={"quick": False, "thorough": True}),
+        Engine("loader-many-candidates", judge_loader, strategy=many_candidate_cases(), nontrivial=c01_pose.nontrivial, labels=labels_loader,
+               cases={"quick": 12, "thorough": 96}, shards={"quick": 4, "thorough": 12}, shrink={"quick": False, "thorough": False}),
         Engine("grid", judge_grid, strategy=grid_cases(), labels=lambda d: [f"form:{d['form']}"],
                cases={"quick": 60, "thorough": 600}, shards={"quick": 1, "thorough": 2}),
     ]
